@@ -303,6 +303,6 @@ pub fn prop() -> Prop<Case> {
         run,
         enumerate: Some(enumerate),
         exhaustive: |_| false,
-        max_shrink_iters: 1500,
+        max_shrink_iters: 400,
     }
 }
